@@ -638,7 +638,12 @@ EvMore(e, s) ==
          \* `l = r`: the LHS is evaluated writable (missing maps / sequence slots are created), then every match takes
          \* the value of every RHS result in turn (LHS-major; the last one stays); the context is returned
          LET L == Ev(e.l, s) IN IF ~Ok(L) THEN L ELSE
-         IF \E i \in DOMAIN L.ctx : ~L.ctx[i].in THEN Fail(s, "unspec")                      \* assigning into a detached value
+         IF \E i \in DOMAIN L.ctx : ~L.ctx[i].in THEN
+              \* assigning into a value an operator has BUILT (the keys of a map, a difference, a sorted copy ...) changes that
+              \* value only - it shares nothing with the document, which stays as it is. Decided for a literal on the right,
+              \* one context node that is in the document and a left side that yields built values only; else left open.
+              IF e.r.op = "VALUE" /\ Len(s.ctx) = 1 /\ s.ctx[1].in /\ (\A i \in DOMAIN L.ctx : ~L.ctx[i].in /\ ~IsKeyItem(L.ctx[i])) THEN [s EXCEPT !.doc = L.doc]
+              ELSE Fail(s, "unspec")
          ELSE \* the product is taken per context node: LHS and RHS are re-evaluated read-only relative to that node
               LET done == FoldLeft(LAMBDA acc0, c : IF ~Ok(acc0) THEN acc0 ELSE
                             LET Lc == Ev(e.l, RO([s EXCEPT !.doc = acc0.doc, !.ctx = <<c>>])) IN
